@@ -14,6 +14,16 @@ mod util;
 use util::{infra, Tier};
 
 fn main() {
+    // A panic of the orchestrator itself (any thread) is a defect of the harness, never a verdict:
+    // it is reported as an infrastructure error (exit 2).
+    let default_hook = std::panic::take_hook();
+    std::panic::set_hook(Box::new(move |info| {
+        default_hook(info);
+        let msg = format!("INFRA-ERROR: the orchestrator panicked: {}", info);
+        eprintln!("{}", msg);
+        println!("{}", msg.lines().next().unwrap_or(""));
+        std::process::exit(2);
+    }));
     let args: Vec<String> = std::env::args().skip(1).collect();
     if args.is_empty() {
         eprintln!("usage: verif <property id> quick|thorough | verif replay <file>");
